@@ -657,6 +657,12 @@ func (e *Engine) callSSA(caller *frame, callpos token.Pos, fn *ssa.Function, arg
 	return e.callSSARaw(caller, callpos, fn, args, env)
 }
 
+// callSSABody runs fn's own SSA body (used by intrinsics that only handle
+// special cases and otherwise defer to the real code).
+func (e *Engine) callSSABody(caller *frame, fn *ssa.Function, args []value) value {
+	return e.callSSABody2(caller, token.NoPos, fn, args, nil)
+}
+
 func (e *Engine) callSSARaw(caller *frame, callpos token.Pos, fn *ssa.Function, args []value, env []value) value {
 	intr, ok := e.intrCache[fn]
 	if !ok {
@@ -667,6 +673,10 @@ func (e *Engine) callSSARaw(caller *frame, callpos token.Pos, fn *ssa.Function, 
 		e.noteIntrinsic(fn)
 		return intr(e, caller, fn, args)
 	}
+	return e.callSSABody2(caller, callpos, fn, args, env)
+}
+
+func (e *Engine) callSSABody2(caller *frame, callpos token.Pos, fn *ssa.Function, args []value, env []value) value {
 	if fn.Blocks == nil {
 		// package initialisers of other packages are run lazily
 		panic(engineError{"no code for function: " + fn.String()})
